@@ -138,7 +138,7 @@ func runMutants(p *rules.Prop, base rt.Result, kf rt.KnownFile) []mutantResult {
 		}
 	}
 	out := make([]mutantResult, len(p.Mutants))
-	sem := make(chan struct{}, 4)
+	sem := make(chan struct{}, 8)
 	var wg sync.WaitGroup
 	for i, m := range p.Mutants {
 		wg.Add(1)
@@ -225,6 +225,9 @@ func patchOverlay(repo, patch string) (map[string][]byte, error) {
 	for _, l := range strings.Split(string(pb), "\n") {
 		if strings.HasPrefix(l, "+++ ") {
 			f := strings.TrimSpace(strings.TrimPrefix(l, "+++ "))
+			if i := strings.IndexAny(f, "\t"); i >= 0 {
+				f = f[:i]
+			}
 			f = strings.TrimPrefix(f, "b/")
 			if f != "/dev/null" {
 				files = append(files, f)
